@@ -182,6 +182,18 @@ func c06IndexProof(r *core.R, info *types.Info, fi *FuncInfo, g *cfg.CFG, dom ma
 		if rs, ok := p.(*ast.RangeStmt); ok && rs.Key != nil && idxObj != nil && objOf(info, rs.Key) == idxObj && c01Same(info, fi.Decl.Body, rs.X, e.X) {
 			return true, "index is the key of `range " + src(r.P.Fset, rs.X) + "`"
 		}
+		// the key of a range over a fixed-length array indexes another array that is at least as long
+		if rs, ok := p.(*ast.RangeStmt); ok && rs.Key != nil && idxObj != nil && objOf(info, rs.Key) == idxObj {
+			rt := info.TypeOf(rs.X)
+			if pt, isPtr := rt.Underlying().(*types.Pointer); isPtr {
+				rt = pt.Elem()
+			}
+			ra, okr := rt.Underlying().(*types.Array)
+			ea, oke := info.TypeOf(e.X).Underlying().(*types.Array)
+			if okr && oke && ra.Len() <= ea.Len() && c06CountAssigns(info, rs.Body, idxObj, rs.Body.Pos(), rs.Body.End()) == 0 {
+				return true, fmt.Sprintf("index is the key of `range %s` (%d elements), the indexed array has %d", src(r.P.Fset, rs.X), ra.Len(), ea.Len())
+			}
+		}
 	}
 	ub, _ := blockOf(g, e.Pos())
 	if ub == nil {
@@ -208,6 +220,42 @@ func c06IndexProof(r *core.R, info *types.Info, fi *FuncInfo, g *cfg.CFG, dom ma
 		bd := &c06Bound{}
 		c06BoundsFromFacts(r.P.Fset, info, facts, isIdx, bd, fi.Name())
 		nonNeg = bd.nonNeg
+	}
+	// a local slice made once with a constant length (and never re-sliced, appended to or reassigned): like an array
+	if xo := objOf(info, e.X); xo != nil {
+		if ds := c01Defs(info, fi.Decl.Body, xo); len(ds) == 1 && ds[0].rhs != nil && ds[0].index < 0 {
+			if mk, ok := ast.Unparen(ds[0].rhs).(*ast.CallExpr); ok && builtinName(info, mk) == "make" && len(mk.Args) == 2 {
+				if ln, okc := constInt(info, mk.Args[1]); okc {
+					bd := &c06Bound{nonNeg: nonNeg}
+					if cv, isConst := constInt(info, e.Index); isConst {
+						bd.setUpper(cv, "constant index")
+						bd.nonNeg = cv >= 0
+					} else {
+						c06BoundsFromFacts(r.P.Fset, info, facts, isIdx, bd, fi.Name())
+					}
+					if bd.hasUpper && bd.upper <= ln-1 && bd.nonNeg {
+						return true, fmt.Sprintf("index <= %d into `%s`, made once with %d elements", bd.upper, src(r.P.Fset, ds[0].rhs), ln)
+					}
+				}
+			}
+		}
+	}
+	// a fixed-length array (a lookup table): constant bounds of the index against the array length
+	if at, ok := info.TypeOf(e.X).Underlying().(*types.Array); ok {
+		bd := &c06Bound{nonNeg: nonNeg}
+		c06BoundsFromFacts(r.P.Fset, info, facts, isIdx, bd, fi.Name())
+		if bd.hasUpper && bd.upper <= at.Len()-1 && bd.nonNeg {
+			// the index is not reassigned between the earliest guard that speaks about it and the use
+			from := e.Pos()
+			for _, ft := range facts {
+				if idxObj != nil && usesObj(info, ft.expr, idxObj) && ft.expr.Pos() < from && ft.expr.Pos().IsValid() {
+					from = ft.expr.Pos()
+				}
+			}
+			if idxObj == nil || c06CountAssigns(info, fi.Decl.Body, idxObj, from, e.Pos()) == 0 {
+				return true, fmt.Sprintf("0 <= %s <= %d on every path to the use, within the array's %d elements (%s)", src(r.P.Fset, e.Index), bd.upper, at.Len(), strings.Join(bd.proof, "; "))
+			}
+		}
 	}
 	var upper *guardFact
 	for i := range facts {
